@@ -100,6 +100,8 @@ def replay_text(binp, workdir, ops, env):
     for i, o in enumerate(eff if eff else ops):
         ci = cl[i] if i < len(cl) else "<none>"
         mi = ml[i] if i < len(ml) else "<none>"
+        if " ## P 1 ## " in o:      # GROUP commit: the two topology dumps of the annotation are recomputed by every replay
+            o = o.split(" ## P 1 ## ")[0] + " ## P 1 ## <dump before> ## <dump after>"
         out.append("%s || %s || %s%s" % (o, ci, mi, "" if ci == mi else "   <== DIFFERS"))
     if rc != 0:
         out.append("# harness exit %d:\n# %s" % (rc, san.replace("\n", "\n# ")))
